@@ -60,26 +60,26 @@ Qed.
 
 (* ---------- the link loop writes only at the key it handles ---------- *)
 Section Link.
-Variables (w : world) (bf : kmap (ty * aval * option aval)) (be : kmap str) (cfg : kmap val).
+Variables (vr : variant) (w : world) (bf : kmap (ty * aval * option aval)) (be : kmap str) (cfg : kmap val).
 
 Lemma link_step_other s k k' : k <> k' ->
-  lookup k (ov (link_step w bf be cfg s k')) = lookup k (ov s) /\
-  lookup k (dfl (link_step w bf be cfg s k')) = lookup k (dfl s).
+  lookup k (ov (link_step vr w bf be cfg s k')) = lookup k (ov s) /\
+  lookup k (dfl (link_step vr w bf be cfg s k')) = lookup k (dfl s).
 Proof.
   intros Hne. unfold link_step.
-  destruct (find_flag w bf be (flagkey (w_prefix w) k') false); simpl.
+  destruct (find_flag w bf be (flagkey vr (w_prefix w) k') false); simpl.
   - rewrite str_eqb_neq; auto.
-  - destruct (find_flag w bf be (flagkey (w_prefix w) k') true); simpl; auto.
+  - destruct (find_flag w bf be (flagkey vr (w_prefix w) k') true); simpl; auto.
     destruct (is_empty v); auto.
     destruct (is_empty_o _); simpl; rewrite ?str_eqb_neq; auto.
 Qed.
 
 Lemma link_fold_other keys : forall s k, ~ In k keys ->
-  lookup k (ov (fold_left (link_step w bf be cfg) keys s)) = lookup k (ov s) /\
-  lookup k (dfl (fold_left (link_step w bf be cfg) keys s)) = lookup k (dfl s).
+  lookup k (ov (fold_left (link_step vr w bf be cfg) keys s)) = lookup k (ov s) /\
+  lookup k (dfl (fold_left (link_step vr w bf be cfg) keys s)) = lookup k (dfl s).
 Proof.
   induction keys as [|k' keys IH]; intros s k Hn; simpl; auto.
-  destruct (IH (link_step w bf be cfg s k') k) as [A B]; [simpl in Hn; tauto|].
+  destruct (IH (link_step vr w bf be cfg s k') k) as [A B]; [simpl in Hn; tauto|].
   destruct (link_step_other s k k') as [C D]; [simpl in Hn; intros ->; tauto|].
   rewrite A, B, C, D. auto.
 Qed.
@@ -93,15 +93,15 @@ Proof. unfold find_key. intros -> ->. reflexivity. Qed.
    started from a session that has nothing recorded for k *)
 Lemma link_at_key keys k : NoDup keys -> In k keys ->
   exists s1, lookup k (ov s1) = None /\ lookup k (dfl s1) = None /\
-    find_key w cfg (fold_left (link_step w bf be cfg) keys (mkS [] [])) k =
-    find_key w cfg (link_step w bf be cfg s1 k) k.
+    find_key w cfg (fold_left (link_step vr w bf be cfg) keys (mkS [] [])) k =
+    find_key w cfg (link_step vr w bf be cfg s1 k) k.
 Proof.
   intros ND HI. destruct (in_split _ _ HI) as [l1 [l2 ->]].
   pose proof (NoDup_remove_2 _ _ _ ND) as Hn.
   assert (Hn1 : ~ In k l1) by (intros H; apply Hn; apply in_or_app; auto).
   assert (Hn2 : ~ In k l2) by (intros H; apply Hn; apply in_or_app; auto).
   rewrite fold_left_app. simpl.
-  exists (fold_left (link_step w bf be cfg) l1 (mkS [] [])).
+  exists (fold_left (link_step vr w bf be cfg) l1 (mkS [] [])).
   destruct (link_fold_other l1 (mkS [] []) k Hn1) as [A B]. simpl in A, B.
   split; auto. split; auto.
   apply find_key_ext; apply link_fold_other; auto.
@@ -109,10 +109,10 @@ Qed.
 End Link.
 
 (* ---------- bindings ---------- *)
-Lemma bound_same_keys w fk :
+Lemma bound_same_keys vr w fk :
   match lookup fk (bound_flags w) with
-  | Some _ => exists n, lookup fk (bound_envs w) = Some n
-  | None => lookup fk (bound_envs w) = None
+  | Some _ => exists n, lookup fk (bound_envs vr w) = Some n
+  | None => lookup fk (bound_envs vr w) = None
   end.
 Proof.
   unfold bound_flags, bound_envs. induction (w_flags w) as [|[[[ev t] d] s] l IH]; simpl; auto.
@@ -123,8 +123,8 @@ Qed.
 (* [spec_val]: explicitly set flag > environment variable > configuration file > supplied default;
    the default of a bound flag that was NOT set only fills in when none of the environment / file / default
    gives a non-empty value (the repository's documented refinement, LoadFromViper's doc comment). *)
-Definition spec_val (w : world) (k : str) (d : aval) : val :=
-  let fl := lookup (flagkey (w_prefix w) k) (bound_flags w) in
+Definition spec_val (vr : variant) (w : world) (k : str) (d : aval) : val :=
+  let fl := lookup (flagkey vr (w_prefix w) k) (bound_flags w) in
   match fl with
   | Some (t, _, Some a) => rep_flag t a
   | _ =>
@@ -143,21 +143,21 @@ Definition spec_val (w : world) (k : str) (d : aval) : val :=
    no shadowing by a variable / flag named like an enclosing path, nothing set under the private flag-key name space,
    and the variable bound by BindFlagToEnv is the one AutomaticEnv consults (proved from the spelling in Proofs_names:
    bound_env_is_auto_env). *)
-Record adequate (w : world) (k : str) : Prop := {
+Record adequate (vr : variant) (w : world) (k : str) : Prop := {
   ad_shadow_k : env_shadow w k = false;
-  ad_shadow_fk : env_shadow w (flagkey (w_prefix w) k) = false;
-  ad_flat_bf : flat_shadow (flagkey (w_prefix w) k) (map fst (bound_flags w)) = false;
-  ad_flat_be : flat_shadow (flagkey (w_prefix w) k) (map fst (bound_envs w)) = false;
-  ad_private : getenv w (autoenv (w_prefix w) (flagkey (w_prefix w) k)) = None;
-  ad_bound : forall n, lookup (flagkey (w_prefix w) k) (bound_envs w) = Some n -> n = autoenv (w_prefix w) k;
+  ad_shadow_fk : env_shadow w (flagkey vr (w_prefix w) k) = false;
+  ad_flat_bf : flat_shadow (flagkey vr (w_prefix w) k) (map fst (bound_flags w)) = false;
+  ad_flat_be : flat_shadow (flagkey vr (w_prefix w) k) (map fst (bound_envs vr w)) = false;
+  ad_private : getenv w (autoenv (w_prefix w) (flagkey vr (w_prefix w) k)) = None;
+  ad_bound : forall n, lookup (flagkey vr (w_prefix w) k) (bound_envs vr w) = Some n -> n = autoenv (w_prefix w) k;
 }.
 
-Lemma step_at_key w cfg s1 k cv :
-  adequate w k ->
+Lemma step_at_key vr w cfg s1 k cv :
+  adequate vr w k ->
   lookup k (ov s1) = None -> lookup k (dfl s1) = None ->
   lookup k cfg = Some cv ->
-  find_key w cfg (link_step w (bound_flags w) (bound_envs w) cfg s1 k) k =
-  Some (let fl := lookup (flagkey (w_prefix w) k) (bound_flags w) in
+  find_key w cfg (link_step vr w (bound_flags w) (bound_envs vr w) cfg s1 k) k =
+  Some (let fl := lookup (flagkey vr (w_prefix w) k) (bound_flags w) in
         match fl with
         | Some (t, _, Some a) => rep_flag t a
         | _ => match getenv w (autoenv (w_prefix w) k) with
@@ -170,9 +170,9 @@ Lemma step_at_key w cfg s1 k cv :
         end).
 Proof.
   intros [A1 A2 A3 A4 A5 A6] Ho Hd Hc. cbv zeta.
-  pose proof (bound_same_keys w (flagkey (w_prefix w) k)) as BK.
+  pose proof (bound_same_keys vr w (flagkey vr (w_prefix w) k)) as BK.
   unfold link_step, find_flag. rewrite A3, A5, A2, A4.
-  destruct (lookup (flagkey (w_prefix w) k) (bound_flags w)) as [[[t fd] [a|]]|] eqn:FL.
+  destruct (lookup (flagkey vr (w_prefix w) k) (bound_flags w)) as [[[t fd] [a|]]|] eqn:FL.
   - (* flag explicitly set *)
     unfold find_key; simpl. now rewrite str_eqb_refl.
   - (* bound, not set *)
@@ -201,12 +201,13 @@ Proof.
 Qed.
 
 (* MAIN: for the repaired code (flags linked after the file is merged) every leaf receives the value [spec_val] names *)
-Lemma load_precedence_l w sc k t d :
+Lemma load_precedence_l vr w sc k t d :
+  v_after_file vr = true ->
   NoDup (map fst (leaves [] sc)) -> In (k, (t, d)) (leaves [] sc) ->
-  is_flagkey k = false -> adequate w k ->
-  final_val true w sc k = Some (spec_val w k d).
+  is_flagkey k = false -> adequate vr w k ->
+  final_val vr w sc k = Some (spec_val vr w k d).
 Proof.
-  intros ND HI NF AD. unfold final_val, prepared, link. cbv zeta.
+  intros AF ND HI NF AD. unfold final_val, prepared, link. rewrite AF. cbv zeta.
   set (keys := filter _ _).
   assert (NDk : NoDup keys).
   { unfold keys. apply NoDup_filter. apply (dedup_spec _ []). }
@@ -214,44 +215,44 @@ Proof.
   { unfold keys. apply filter_In. split; [|now rewrite NF].
     apply (dedup_spec _ []). split; [|tauto]. apply in_or_app. left.
     apply in_map_iff. exists (k, (t, d)). auto. }
-  destruct (link_at_key w (bound_flags w) (bound_envs w) (file_cfg w ++ defaults_cfg sc) keys k NDk Ik)
+  destruct (link_at_key vr w (bound_flags w) (bound_envs vr w) (file_cfg w ++ defaults_cfg sc) keys k NDk Ik)
     as [s1 [Ho [Hd E]]].
   rewrite E.
   set (cv := match lookup k (file_cfg w) with Some v => v | None => rep_default d end).
   assert (Hc : lookup k (file_cfg w ++ defaults_cfg sc) = Some cv).
   { rewrite lookup_app. unfold cv. destruct (lookup k (file_cfg w)); auto. eapply leaves_cfg_lookup; eauto. }
-  rewrite (step_at_key w _ s1 k cv AD Ho Hd Hc). reflexivity.
+  rewrite (step_at_key vr w _ s1 k cv AD Ho Hd Hc). reflexivity.
 Qed.
 
 (* the four clauses of the property, read off [spec_val] *)
-Lemma spec_flag_wins w k d t fd a :
-  lookup (flagkey (w_prefix w) k) (bound_flags w) = Some (t, fd, Some a) -> spec_val w k d = rep_flag t a.
+Lemma spec_flag_wins vr w k d t fd a :
+  lookup (flagkey vr (w_prefix w) k) (bound_flags w) = Some (t, fd, Some a) -> spec_val vr w k d = rep_flag t a.
 Proof. unfold spec_val. now intros ->. Qed.
 
-Lemma spec_env_next w k d v :
-  (forall t fd a, lookup (flagkey (w_prefix w) k) (bound_flags w) <> Some (t, fd, Some a)) ->
-  getenv w (autoenv (w_prefix w) k) = Some v -> spec_val w k d = v.
+Lemma spec_env_next vr w k d v :
+  (forall t fd a, lookup (flagkey vr (w_prefix w) k) (bound_flags w) <> Some (t, fd, Some a)) ->
+  getenv w (autoenv (w_prefix w) k) = Some v -> spec_val vr w k d = v.
 Proof.
   unfold spec_val. intros H ->. destruct (lookup _ (bound_flags w)) as [[[t fd] [a|]]|] eqn:E; auto.
   exfalso. eapply H; eauto.
 Qed.
 
-Lemma spec_file_next w k d v :
-  lookup (flagkey (w_prefix w) k) (bound_flags w) = None ->
+Lemma spec_file_next vr w k d v :
+  lookup (flagkey vr (w_prefix w) k) (bound_flags w) = None ->
   getenv w (autoenv (w_prefix w) k) = None ->
-  lookup k (file_cfg w) = Some v -> spec_val w k d = v.
+  lookup k (file_cfg w) = Some v -> spec_val vr w k d = v.
 Proof. unfold spec_val. now intros -> -> ->. Qed.
 
-Lemma spec_default_last w k d :
-  lookup (flagkey (w_prefix w) k) (bound_flags w) = None ->
+Lemma spec_default_last vr w k d :
+  lookup (flagkey vr (w_prefix w) k) (bound_flags w) = None ->
   getenv w (autoenv (w_prefix w) k) = None ->
-  lookup k (file_cfg w) = None -> spec_val w k d = rep_default d.
+  lookup k (file_cfg w) = None -> spec_val vr w k d = rep_default d.
 Proof. unfold spec_val. now intros -> -> ->. Qed.
 
 (* with a bound flag that is not set: same order, and the flag's default never outranks a non-empty value *)
-Lemma spec_unset_flag_does_not_outrank w k d t fd :
-  lookup (flagkey (w_prefix w) k) (bound_flags w) = Some (t, fd, None) ->
+Lemma spec_unset_flag_does_not_outrank vr w k d t fd :
+  lookup (flagkey vr (w_prefix w) k) (bound_flags w) = Some (t, fd, None) ->
   getenv w (autoenv (w_prefix w) k) = None ->
   let cv := match lookup k (file_cfg w) with Some v => v | None => rep_default d end in
-  is_empty cv = false -> spec_val w k d = cv.
+  is_empty cv = false -> spec_val vr w k d = cv.
 Proof. intros H1 H2. cbv zeta. intros H. unfold spec_val. rewrite H1, H2, H. now rewrite andb_false_r. Qed.
